@@ -198,6 +198,9 @@ func NewListener() *Listener {
 
 func (l *Listener) Push(s AcceptStep) { l.steps <- s }
 
+// Pending: accept steps pushed but not yet taken by Accept
+func (l *Listener) Pending() int { return len(l.steps) }
+
 func (l *Listener) closedErr() error {
 	l.mu.Lock()
 	l.Accepts++
